@@ -514,6 +514,36 @@ def handler_oracle(ctx):
                       f"real handleTransactionPayload: vcr_vcs called again after completion at {again} (calls {rows[again[0]]['calls']})",
                       "handler-second-payload.jsonl", open(wit).read() if os.path.exists(wit) else "see harness/inpkg/network/transport/v2/zz_verif_c14_test.go")
     ctx.cov["handler_level_steps"] = len(rows)
+    # WritePayload fails while the payload message of an admitted private transaction is handled (wave 9): the private job is the only
+    # thing that makes the node ask for the payload again - it may be removed only once the payload is stored (fact_payload_handler_sequence:
+    # Finished AFTER WritePayload; model: payload_job_removed_only_after_payload_stored)
+    wp = {}
+    for l in ctx.read_lines(os.path.join(out, "handler.out")):
+        m = re.match(r"wpfail-(\S+) err=(\S+) vcsCalls=(\d+) privateJobs=(\d+) payloadStored=(\S+)$", l)
+        if m:
+            wp[m.group(1)] = dict(err=m.group(2), vcs=int(m.group(3)), private=int(m.group(4)), stored=m.group(5) == "true")
+    need_wp = ["add-private", "payload-write-fails", "restart", "payload-written"]
+    if any(k not in wp for k in need_wp):
+        ctx.oblige("handler-harness-runs:wpfail", False, f"missing rows: {[k for k in need_wp if k not in wp]}")
+    else:
+        setup_ok = wp["add-private"]["private"] == 1 and wp["payload-write-fails"]["err"] == "error" and not wp["payload-write-fails"]["stored"]
+        ctx.oblige("oracle:handler:wpfail-scenario-reaches-the-failing-write", setup_ok, str(wp))
+        lost = [k for k in ("payload-write-fails", "restart") if not wp[k]["stored"] and wp[k]["private"] == 0]
+        ok_end = wp["payload-written"]["stored"] and wp["payload-written"]["private"] == 0 and wp["payload-written"]["vcs"] == 1 and wp["payload-written"]["err"] == "nil"
+        ctx.oblige("oracle:handler:private-job-removed-only-after-payload-stored", not lost and (ok_end or not setup_ok), str(wp))
+        if setup_ok and lost:
+            ctx.violation("C14:private-payload-job-removed-before-payload-stored",
+                          f"real handleTransactionPayload, WritePayload failed (rolled back) for an admitted private transaction: at {lost} the payload is NOT stored "
+                          f"but the 'private' job is gone - completion recorded although the subscriber never completed; the payload is never queried again and "
+                          f"its payload event never reaches vcr/vdr/nats. rows: {wp}",
+                          "handler-writepayload-fails.txt",
+                          "scenario (harness/inpkg/network/transport/v2/zz_verif_c14_test.go, TestVerifC14Handler, block 'wpfail'):\n"
+                          "Add(root,payload); Add(privateTx,nil); register persistent notifier on ANOTHER store selecting payload events (its Save fails => WritePayload tx rolls back);\n"
+                          "handleTransactionPayload(privateTx,payload) -> error; expect privateJobs=1; close; reopen; Run; expect privateJobs=1; handleTransactionPayload again -> stored, job gone\n"
+                          + "\n".join(f"{k}: {wp[k]}" for k in need_wp))
+        elif setup_ok and not ok_end:
+            ctx.violation("C14:private-payload-job-removed-before-payload-stored", f"after the payload was finally written the private job / delivery is not as expected: {wp['payload-written']}",
+                          "handler-writepayload-fails.txt", str(wp))
     # two distinct transactions with byte-identical payloads, through the real handler
     ident = dict(re.findall(r"^identical-(\S+) err=\S+ calls=(\d+)", "\n".join(ctx.read_lines(os.path.join(out, "handler.out"))), re.M))
     want_i = {"add-twin-with-payload": "1", "add-private": "1", "payload-1": "2", "payload-2": "2"}
